@@ -25,6 +25,8 @@ CLAIMED = {
             "4.C10"),
     "C11": ("contract proof: BaseEngine.start two-case post, SyncEngine.start, activate_initial_state, empty-queue no-op clauses of processing_loop, __initial__ branch of _trigger",
             "4.C11"),
+    "C07": ("contract proof: two loop invariants + pointwise post of SignatureAdapter.bind_expected against a spec function from the property; Event.__call__ reserved-name filter; extended_kwargs overlay; cache-key lemma (recorded finding)",
+            "4.C07"),
     "C09": ("contract proof: BFS invariant of visit_connected_states (sound + closed under targets, LFP schema), iff-posts of the five metaclass checks and of _check",
             "4.C09"),
     "C13": ("contract proof: post of send (the callee is a bound event of that name for EVERY string) over a symbolic attribute table; Event.__call__ queues exactly one item",
